@@ -132,6 +132,7 @@ def handleCaller (j : Json) : R Json := do
   | "plain" => pure (jRes2 dest (awb loopW retries dest r1 data fs σ))
   | "swallow" => pure (jRes2 dest (swallow (awb loopW retries dest r1 data fs σ)))
   | "sidecar" => pure (jRes2 dest (withSidecarL loopW retries dest r1 r2 data mdata fs σ))
+  | "iterfail" => pure (jRes2 dest (fin .raised fs))  -- the record source raised: no FS call is made at all
   | _ => throw s!"bad kind {kind}"
 
 /-- stand-alone `atomic_replace` -/
